@@ -320,7 +320,7 @@ def _entry_conditions(ctx, run, fin):
     count = 0
     for mod, callee, positive in ((run, '_unshare_network', True),
                                   (fin, '_cleanup_network', False)):
-        for func in mod.all_functions():
+        for func in mod.live_functions():
             graph = None
             for sub in K.walk_no_nested(func.node):
                 if isinstance(sub, ast.Call) and isinstance(
